@@ -72,6 +72,7 @@ type FuncContract struct {
 	ViewsUnchecked  bool // "views unchecked": Slice may describe a view that extends beyond its parent (Slice itself checks nothing)
 	Fresh           []string
 	UseLemmas       []string
+	Instantiate2    []string // labels of lemmas instantiated inside loops
 	Instantiate     []string // "LABEL(e1, ..., en)": ground instances of induction lemmas assumed at entry
 	DynTypes        map[string]string // result name -> concrete struct type name
 }
@@ -376,6 +377,14 @@ func parseFuncDirective(fc *FuncContract, word, rest, file string, line int) {
 		if err != nil {
 			fatalf("%s:%d: bad loop ordinal", file, line)
 		}
+		if f[1] == "instantiate" {
+			// loop N instantiate LABEL(args): a lemma instance assumed at the end of the body
+			fc.Clauses = append(fc.Clauses, &Clause{Kind: "loopinst", Src: strings.TrimSpace(f[2]), Loop: n, File: file, Line: line})
+			if i := strings.Index(f[2], "("); i > 0 {
+				fc.Instantiate2 = append(fc.Instantiate2, strings.TrimSpace(f[2][:i]))
+			}
+			return
+		}
 		switch f[1] {
 		case "invariant", "step":
 			fc.Clauses = append(fc.Clauses, mk(f[1], strings.TrimSpace(f[2]), n))
@@ -463,6 +472,15 @@ func parseFuncDirective(fc *FuncContract, word, rest, file string, line int) {
 		f := strings.SplitN(rest, " ", 2)
 		if len(f) != 2 {
 			fatalf("%s:%d: bad callsite", file, line)
+		}
+		if r := strings.TrimSpace(f[1]); strings.HasPrefix(r, "instantiate ") {
+			// callsite CALLEE instantiate LABEL(args): a lemma instance assumed just before the call
+			inst := strings.TrimSpace(strings.TrimPrefix(r, "instantiate "))
+			fc.Clauses = append(fc.Clauses, &Clause{Kind: "callinst", Callee: f[0], Src: inst, Loop: -1, File: file, Line: line})
+			if i := strings.Index(inst, "("); i > 0 {
+				fc.Instantiate2 = append(fc.Instantiate2, strings.TrimSpace(inst[:i]))
+			}
+			return
 		}
 		cl := mk("callsite", strings.TrimSpace(f[1]), -1)
 		cl.Callee = f[0]
